@@ -471,6 +471,21 @@ theorem roi_apply_shape {α} (raw : List (List α)) (H W : Nat) (hH : raw.length
     simp only [List.length_drop, List.length_take]; omega
 
 
+
+theorem legacy_frame_ranges_len (ts : List (Int × Int)) (hne : ts ≠ []) :
+    ∃ r, legacyRanges ts = some r ∧ r.length = ts.length ∧ True := by
+  obtain ⟨last, hlast⟩ : ∃ last, ts.getLast? = some last := by
+    cases h : ts.getLast? with
+    | none => exact absurd (List.getLast?_eq_none_iff.mp h) hne
+    | some l => exact ⟨l, rfl⟩
+  have hlen : 0 < ts.length := List.length_pos_iff.mpr hne
+  unfold legacyRanges
+  rw [hlast]
+  refine ⟨_, rfl, ?_, trivial⟩
+  simp only [List.length_append, List.length_map, List.length_zip, List.length_drop, List.length_cons,
+    List.length_nil]
+  omega
+
 /-! ## Part II — decimal formatting and the DateTime pattern -/
 
 /-- Value of a digit list, least significant digit first. -/
@@ -565,6 +580,7 @@ theorem mem_takeWhile_true {α} (p : α → Bool) : ∀ (l : List α) (c : α), 
 
 theorem colon_not_digit : isDigit ':' = false := by decide
 theorem minus_not_digit : isDigit '-' = false := by decide
+
 
 /-! ## Part III — export of the visible pages -/
 
@@ -811,5 +827,260 @@ theorem exportPages_roi_change {α} (s : Stack) (r' : Roi) (f : File α) (g : Li
           rfl
   · have hfalse : s.inFile f.pages.length = false := by simpa using hin
     rw [hfalse]; rfl
+
+/-- A successful export wrote at least one page (the code refuses to write an empty file). -/
+theorem export_nonempty {α} (s : Stack) (f : File α) (h : exportPages s f = .ok []) : False := by
+  unfold exportPages at h
+  by_cases hin : s.inFile f.pages.length = true
+  · rw [hin] at h
+    simp only [Bool.not_true, Bool.false_eq_true, if_false] at h
+    cases hrd : s.ranges f true with
+    | none => rw [hrd] at h; cases h
+    | some rd =>
+      cases hre : s.ranges f false with
+      | none => rw [hrd, hre] at h; cases h
+      | some re =>
+        rw [hrd, hre] at h
+        simp only at h
+        by_cases h0 : rd.length = 0
+        · rw [if_pos h0] at h; cases h
+        · rw [if_neg h0] at h
+          have hre' : re = (s.visible f).map fun p => (p.start, p.expStop) := by
+            unfold Stack.ranges at hre; simpa using hre.symm
+          have hrdlen : rd.length = (s.visible f).length := by
+            unfold Stack.ranges at hrd
+            simp only [if_true] at hrd
+            by_cases hl : f.legacy = true
+            · rw [if_pos hl] at hrd
+              by_cases hne : ((s.visible f).map fun p => (p.start, p.stop)) = []
+              · rw [hne] at hrd; cases hrd
+              · obtain ⟨r', hr', hlen', _⟩ := legacy_frame_ranges_len _ hne
+                rw [hrd] at hr'; cases hr'
+                simpa using hlen'
+            · rw [if_neg hl] at hrd
+              cases hrd; simp
+          obtain ⟨i1, _, _⟩ := zipPages_img ((s.visible f).map fun p => s.roi.apply p.img) rd
+            (re.map fun r => r.2 - r.1) (by simp; omega) (by rw [hre']; simp)
+          have hz := Except.ok.inj h
+          rw [hz] at i1
+          simp at i1
+          have : (s.visible f).length = 0 := by rw [i1]; rfl
+          omega
+  · have hfalse : s.inFile f.pages.length = false := by simpa using hin
+    rw [hfalse] at h
+    simp at h
+
+/-! ## Part IV — `cast_image` -/
+
+theorem foldl_min_spec (l : List Rat) : ∀ m : Rat,
+    (l.foldl (fun m y => if y < m then y else m) m = m ∨ l.foldl (fun m y => if y < m then y else m) m ∈ l) ∧
+    l.foldl (fun m y => if y < m then y else m) m ≤ m ∧
+    ∀ v ∈ l, l.foldl (fun m y => if y < m then y else m) m ≤ v := by
+  induction l with
+  | nil => intro m; simp
+  | cons x xs ih =>
+    intro m
+    simp only [List.foldl_cons]
+    obtain ⟨h1, h2, h3⟩ := ih (if x < m then x else m)
+    by_cases hx : x < m
+    · simp only [hx, if_true] at h1 h2 h3 ⊢
+      refine ⟨?_, le_trans h2 (le_of_lt hx), ?_⟩
+      · rcases h1 with h | h
+        · right; rw [h]; exact List.mem_cons_self ..
+        · right; exact List.mem_cons_of_mem _ h
+      · intro v hv
+        rcases List.mem_cons.mp hv with rfl | hv
+        · exact h2
+        · exact h3 v hv
+    · simp only [hx, if_false] at h1 h2 h3 ⊢
+      refine ⟨?_, h2, ?_⟩
+      · rcases h1 with h | h
+        · left; exact h
+        · right; exact List.mem_cons_of_mem _ h
+      · intro v hv
+        rcases List.mem_cons.mp hv with rfl | hv
+        · exact le_trans h2 (not_lt.mp hx)
+        · exact h3 v hv
+
+theorem foldl_max_spec (l : List Rat) : ∀ m : Rat,
+    (l.foldl (fun m y => if m < y then y else m) m = m ∨ l.foldl (fun m y => if m < y then y else m) m ∈ l) ∧
+    m ≤ l.foldl (fun m y => if m < y then y else m) m ∧
+    ∀ v ∈ l, v ≤ l.foldl (fun m y => if m < y then y else m) m := by
+  induction l with
+  | nil => intro m; simp
+  | cons x xs ih =>
+    intro m
+    simp only [List.foldl_cons]
+    obtain ⟨h1, h2, h3⟩ := ih (if m < x then x else m)
+    by_cases hx : m < x
+    · simp only [hx, if_true] at h1 h2 h3 ⊢
+      refine ⟨?_, le_trans (le_of_lt hx) h2, ?_⟩
+      · rcases h1 with h | h
+        · right; rw [h]; exact List.mem_cons_self ..
+        · right; exact List.mem_cons_of_mem _ h
+      · intro v hv
+        rcases List.mem_cons.mp hv with rfl | hv
+        · exact h2
+        · exact h3 v hv
+    · simp only [hx, if_false] at h1 h2 h3 ⊢
+      refine ⟨?_, h2, ?_⟩
+      · rcases h1 with h | h
+        · left; exact h
+        · right; exact List.mem_cons_of_mem _ h
+      · intro v hv
+        rcases List.mem_cons.mp hv with rfl | hv
+        · exact le_trans (not_lt.mp hx) h2
+        · exact h3 v hv
+
+/-- `np.min`: an element of the image below all others. -/
+theorem listMin_spec (img : List Rat) (hne : img ≠ []) :
+    ∃ lo, listMin img = some lo ∧ lo ∈ img ∧ ∀ v ∈ img, lo ≤ v := by
+  cases img with
+  | nil => exact absurd rfl hne
+  | cons x xs =>
+    obtain ⟨h1, h2, h3⟩ := foldl_min_spec xs x
+    refine ⟨_, rfl, ?_, ?_⟩
+    · rcases h1 with h | h
+      · rw [h]; exact List.mem_cons_self ..
+      · exact List.mem_cons_of_mem _ h
+    · intro v hv
+      rcases List.mem_cons.mp hv with rfl | hv
+      · exact h2
+      · exact h3 v hv
+
+theorem listMax_spec (img : List Rat) (hne : img ≠ []) :
+    ∃ hi, listMax img = some hi ∧ hi ∈ img ∧ ∀ v ∈ img, v ≤ hi := by
+  cases img with
+  | nil => exact absurd rfl hne
+  | cons x xs =>
+    obtain ⟨h1, h2, h3⟩ := foldl_max_spec xs x
+    refine ⟨_, rfl, ?_, ?_⟩
+    · rcases h1 with h | h
+      · rw [h]; exact List.mem_cons_self ..
+      · exact List.mem_cons_of_mem _ h
+    · intro v hv
+      rcases List.mem_cons.mp hv with rfl | hv
+      · exact h2
+      · exact h3 v hv
+
+/-- The value fits the data type. -/
+def InRange (d : DType) (v : Rat) : Prop := d.lo ≤ v ∧ v ≤ d.hi
+
+theorem f32Max_pos : 0 < f32Max := by unfold f32Max; norm_num
+
+theorem lo_le_hi (d : DType) : d.lo ≤ d.hi := by
+  cases d
+  · simp [DType.lo, DType.hi]
+  · simp [DType.lo, DType.hi]
+  · simp only [DType.lo, DType.hi]; have := f32Max_pos; linarith
+
+/-- The global min/max test of `cast_image` is the element-wise range test. -/
+theorem range_test_iff (d : DType) (img : List Rat) (lo hi : Rat)
+    (hlo : lo ∈ img ∧ ∀ v ∈ img, lo ≤ v) (hhi : hi ∈ img ∧ ∀ v ∈ img, v ≤ hi) :
+    ¬ (lo < d.lo ∨ d.hi < hi) ↔ ∀ v ∈ img, InRange d v := by
+  constructor
+  · intro h v hv
+    have h1 : ¬ lo < d.lo := fun x => h (Or.inl x)
+    have h2 : ¬ d.hi < hi := fun x => h (Or.inr x)
+    exact ⟨le_trans (not_lt.mp h1) (hlo.2 v hv), le_trans (hhi.2 v hv) (not_lt.mp h2)⟩
+  · intro h hbad
+    rcases hbad with hb | hb
+    · exact absurd (h lo hlo.1).1 (not_le.mpr hb)
+    · exact absurd (h hi hhi.1).2 (not_le.mpr hb)
+
+theorem clipTo_spec (lo hi v : Rat) (h : lo ≤ hi) :
+    (lo ≤ clipTo lo hi v ∧ clipTo lo hi v ≤ hi) ∧ (lo ≤ v → v ≤ hi → clipTo lo hi v = v) ∧
+      (v < lo → clipTo lo hi v = lo) ∧ (hi < v → clipTo lo hi v = hi) := by
+  unfold clipTo
+  simp only
+  split_ifs with h1 h2 h2
+  · exact absurd h2 (not_lt.mpr h)
+  · exact ⟨⟨le_refl _, h⟩, fun h3 => absurd h1 (not_lt.mpr h3), fun _ => rfl,
+      fun h3 => absurd (lt_trans h3 h1) (not_lt.mpr h)⟩
+  · exact ⟨⟨h, le_refl _⟩, fun _ h3 => absurd h2 (not_lt.mpr h3), fun h3 => absurd h3 h1, fun _ => rfl⟩
+  · exact ⟨⟨not_lt.mp h1, not_lt.mp h2⟩, fun _ _ => rfl, fun h3 => absurd h3 h1, fun h3 => absurd h3 h2⟩
+
+/-- Integer types: an in-range value is truncated to `⌊v⌋`, which is again in range. -/
+theorem astype_int (d : DType) (hd : d = .u8 ∨ d = .u16) (v : Rat) (hv : InRange d v) :
+    astype d v = ((⌊v⌋ : Int) : Rat) ∧ InRange d ((⌊v⌋ : Int) : Rat) := by
+  have h0 : 0 ≤ v := by
+    rcases hd with rfl | rfl <;> exact hv.1
+  have hnum : 0 ≤ v.num := Rat.num_nonneg.mpr h0
+  have hfl : Int.tdiv v.num v.den = ⌊v⌋ := by
+    rw [Int.tdiv_eq_ediv_of_nonneg hnum, ← Rat.floor_def]; rfl
+  have hin : InRange d ((⌊v⌋ : Int) : Rat) := by
+    refine ⟨?_, le_trans (Int.floor_le v) hv.2⟩
+    have : (0 : Int) ≤ ⌊v⌋ := Int.floor_nonneg.mpr h0
+    have h' : (0 : Rat) ≤ ((⌊v⌋ : Int) : Rat) := by exact_mod_cast this
+    rcases hd with rfl | rfl <;> exact h'
+  refine ⟨?_, hin⟩
+  rcases hd with rfl | rfl <;> simp only [astype, hfl]
+
+/-! ### float32 rounding -/
+
+theorem roundHalfEven_spec (y : Rat) :
+    |((roundHalfEven y : Int) : Rat) - y| ≤ 1 / 2 ∧ (⌊y⌋ ≤ roundHalfEven y ∧ roundHalfEven y ≤ ⌊y⌋ + 1) := by
+  have hf : y.floor = ⌊y⌋ := rfl
+  have h1 := Int.floor_le y
+  have h2 := Int.lt_floor_add_one y
+  unfold roundHalfEven
+  simp only [hf]
+  by_cases c1 : y - (⌊y⌋ : Rat) < 1 / 2
+  · rw [if_pos c1]
+    refine ⟨?_, le_refl _, by omega⟩
+    rw [abs_le]; constructor <;> linarith
+  · rw [if_neg c1]
+    by_cases c2 : 1 / 2 < y - (⌊y⌋ : Rat)
+    · rw [if_pos c2]
+      refine ⟨?_, by omega, le_refl _⟩
+      push_cast
+      rw [abs_le]; constructor <;> linarith
+    · rw [if_neg c2]
+      have : y - (⌊y⌋ : Rat) = 1 / 2 := le_antisymm (not_lt.mp c2) (not_lt.mp c1)
+      by_cases c3 : ⌊y⌋ % 2 = 0
+      · rw [if_pos c3]
+        refine ⟨?_, le_refl _, by omega⟩
+        rw [abs_le]; constructor <;> linarith
+      · rw [if_neg c3]
+        refine ⟨?_, by omega, le_refl _⟩
+        push_cast
+        rw [abs_le]; constructor <;> linarith
+
+theorem roundHalfEven_int (n : Int) : roundHalfEven (n : Rat) = n := by
+  have hf : (n : Rat).floor = n := Rat.floor_intCast n
+  unfold roundHalfEven
+  simp only [hf, sub_self]
+  norm_num
+
+theorem pow2_eq_zpow (e : Int) : pow2 e = (2 : Rat) ^ e := by
+  unfold pow2
+  by_cases h : 0 ≤ e
+  · rw [if_pos h]
+    conv => rhs; rw [← Int.toNat_of_nonneg h]
+    rw [zpow_natCast]
+  · rw [if_neg h]
+    have : e = -((-e).toNat : Int) := by omega
+    conv => rhs; rw [this]
+    rw [zpow_neg, zpow_natCast, one_div]
+
+theorem pow2_pos (e : Int) : 0 < pow2 e := by rw [pow2_eq_zpow]; exact zpow_pos (by norm_num) e
+
+theorem ulpF32_pos (x : Rat) : 0 < ulpF32 x := pow2_pos _
+
+/-- Rounding error of the float32 cast: at most half a unit in the last place. -/
+theorem roundF32_error (x : Rat) : |roundF32 x - x| ≤ ulpF32 x / 2 := by
+  unfold roundF32
+  by_cases hx : x = 0
+  · rw [if_pos hx, hx]; simp; have := ulpF32_pos 0; linarith
+  · rw [if_neg hx]
+    have hu := ulpF32_pos x
+    have h := (roundHalfEven_spec (x / ulpF32 x)).1
+    have e : (roundHalfEven (x / ulpF32 x) : Rat) * ulpF32 x - x =
+        ((roundHalfEven (x / ulpF32 x) : Rat) - x / ulpF32 x) * ulpF32 x := by
+      field_simp
+    rw [e, abs_mul, abs_of_pos hu]
+    calc |(roundHalfEven (x / ulpF32 x) : Rat) - x / ulpF32 x| * ulpF32 x ≤ 1 / 2 * ulpF32 x :=
+          mul_le_mul_of_nonneg_right h (le_of_lt hu)
+      _ = ulpF32 x / 2 := by ring
 
 end Verif.C18
